@@ -6,7 +6,7 @@ cd /verif
 git -C /repo worktree remove --force $wt 2>/dev/null
 base=HEAD; [ -f /verif/seeded/$name/BASE ] && base=$(cat /verif/seeded/$name/BASE)  # seeds whose patch no longer applies to HEAD record the newest commit it applies to
 git -C /repo worktree add -q --detach $wt $base && git -C $wt apply /verif/seeded/$name/patch.diff || { echo "cannot apply"; exit 2; }
-REPO=$wt VERIF_HANG_S=15 timeout 900 ./run.sh check $prop ${3:-quick} > /tmp/val-$name.check.log 2>&1
+REPO=$wt VERIF_HANG_S=${SEED_HANG_S:-60} timeout 900 ./run.sh check $prop ${3:-quick} > /tmp/val-$name.check.log 2>&1
 c=$?
 git -C /repo worktree remove --force $wt
 ./run.sh build > /dev/null 2>&1
